@@ -7,6 +7,7 @@ pub mod c15;
 pub mod c16;
 pub mod c17;
 pub mod c18;
+pub mod c19;
 pub mod common;
 
 pub fn by_id(id: &str) -> Option<Box<dyn Property>> {
@@ -18,6 +19,7 @@ pub fn by_id(id: &str) -> Option<Box<dyn Property>> {
         "C16" => Box::new(c16::C16),
         "C17" => Box::new(c17::C17),
         "C18" => Box::new(c18::C18),
+        "C19" => Box::new(c19::C19),
         _ => return None,
     })
 }
